@@ -1193,6 +1193,8 @@ func (s *Server) cleanupExpiredLeases() {
 		return
 	}
 
+	s.verifCleanupGap()
+
 	s.leasesMu.Lock()
 	for _, mac := range expired {
 		lease := s.leases[mac]
